@@ -16,7 +16,7 @@ import (
 
 // mv is a model value: an int, a float or a string (the scalar types that occur in the sources).
 type mv struct {
-	K byte // 'i' 'f' 's'
+	K byte // 'i' 'f' 's' 'b' (bool: I is 0 or 1)
 	I int64
 	F float64
 	S string
@@ -30,6 +30,8 @@ func (v mv) val() value.Value {
 		return value.Int(v.I)
 	case 'f':
 		return value.Float(v.F)
+	case 'b':
+		return value.Bool(v.I == 1)
 	}
 	return value.String(v.S)
 }
@@ -42,6 +44,11 @@ func mvOf(v value.Value) (mv, bool) {
 		return mv{K: 'f', F: float64(x)}, true
 	case value.String:
 		return mv{K: 's', S: string(x)}, true
+	case value.Bool:
+		if x {
+			return mv{K: 'b', I: 1}, true
+		}
+		return mv{K: 'b'}, true
 	}
 	return mv{}, false
 }
@@ -52,6 +59,8 @@ func (v mv) String() string {
 		return strconv.FormatInt(v.I, 10)
 	case 'f':
 		return "f" + strconv.FormatFloat(v.F, 'g', -1, 64)
+	case 'b':
+		return strconv.FormatBool(v.I == 1)
 	}
 	return strconv.Quote(v.S)
 }
